@@ -50,6 +50,11 @@ def generate(rng, tier, focus):
         if rng.random() < 0.25:
             ops.append({"op": "align", "steps_factor": rng.randint(1, 3)})
         ops.append({"op": "calc_maps", "scale": rng.choice([0.5, 1.0, rng.uniform(0.05, 2.0)])})
+        if rng.random() < 0.2 and attached:
+            # the overlap is adjusted by hand on the live molecule, and the maps are built again WITH THE SAME SCALE
+            ops.append({"op": "nudge", "species": rng.choice(sorted(attached)), "d": gen.rvec(rng, 0.3),
+                        "which": rng.choice(["end", "end", "start"])})
+            ops.append({"op": "calc_maps", "scale": ops[-2]["scale"]})
         for _ in range(rng.choice([0, 1, 1, 2])):
             ops.append({"op": "extrapolate", "out": rng.choice(["out0.gro", "out1.gro", "out2.gro"])})
     if not any(o["op"] == "extrapolate" for o in ops):
@@ -143,6 +148,13 @@ def execute(trace, ctx):
                         manager.molecule_correspondence[species[s]["name"]].end = None
                         del attached[s]
                         ctx.probe("end_detached")
+                    ctx.op(kind)
+                elif kind == "nudge":
+                    s = op["species"]
+                    if s in attached:
+                        ali = manager.molecule_correspondence[species[s]["name"]]
+                        getattr(ali, op["which"]).move(np.array(op["d"]))
+                        ctx.probe("live_molecule_moved_between_map_builds")
                     ctx.op(kind)
                 elif kind == "align":
                     Alignment.STEPS_FACTOR = op["steps_factor"]
